@@ -26,7 +26,8 @@ import time
 from typing import Any, Dict, List, Tuple
 
 from bounded import c01_cases as cc
-from bounded.grammars import ENUM_NODES, GRAMMARS, terminals_chars
+from bounded.c18_worker import GRAMMARS
+from bounded.grammars import ENUM_NODES, terminals_chars
 
 MODULE = "checks.bounded_C18"
 
@@ -39,7 +40,7 @@ def _valid_strings(gname: str) -> List[str]:
     g = GRAMMARS[gname]
     out: List[str] = []
     seen = set()
-    for struct in reftree.ref_tree_structs(g, "<start>", ENUM_NODES[gname]):
+    for struct in reftree.ref_tree_structs(g, "<start>", ENUM_NODES.get(gname, {"recstart": 22}.get(gname, 8))):
         s = reftree.ref_str(reftree.from_struct(struct))
         if s not in seen and len(s) <= (45 if gname == "wide" else MAX_LEN):
             seen.add(s)
@@ -87,7 +88,7 @@ def input_strings(gname: str, rng: random.Random, n_valid: int, n_mut: int) -> L
     for s in chosen + muts[:n_mut] + ["", "?!"]:
         if s not in out:
             out.append(s)
-    if gname == "wide":
+    if gname in ("wide", "wide1"):
         out = [s for s in ["x", "y", "x" * 30, "x" * 29 + "y", "y" + "x" * 29, "x" * 40, "x" * 39 + "y",
                            "x" * 31, "", "xx"]]
     return out
@@ -98,7 +99,13 @@ def build_tasks(tier: str, seed: int) -> List[Dict[str, Any]]:
     quick = tier == "quick"
     n_valid, n_mut = (26, 14) if quick else (90, 60)
     strings = {g: input_strings(g, random.Random(f"C18:{seed}:{g}"), n_valid, n_mut) for g in GRAMMARS}
-    templates = [t for t in cc.TEMPLATES if t["text"] is not None]
+    templates = [dict(t) for t in cc.TEMPLATES if t["text"] is not None]
+    for t in list(templates):
+        if t["grammar"] == "wide":
+            templates.append(dict(t, grammar="wide1", tid=t["tid"].replace("wide:", "wide1:")))
+            t["cls"] = "grammar-start-with-several-alternatives"
+    templates.append(dict(tid="recstart:recursive-start-symbol", grammar="recstart", cls="recursive-start-symbol",
+                          text='exists <A> a: str.len(a) >= 3', expect="sat"))
     # repair / mutate are expensive: quick runs them for a seed-selected subset of the templates
     rm_templates = set(t["tid"] for t in (rng.sample(templates, 64) if quick else templates))
     tasks = []
@@ -106,7 +113,7 @@ def build_tasks(tier: str, seed: int) -> List[Dict[str, Any]]:
         ss = strings[t["grammar"]]
         task = dict(tid=t["tid"], grammar=t["grammar"], cls=t["cls"], text=t["text"], expect=t["expect"],
                     strings=ss, repairs=[], mutations=[], random_seed=seed)
-        if t["tid"] in rm_templates and t["grammar"] != "wide":
+        if t["tid"] in rm_templates and not t["grammar"].startswith("wide"):
             n_rep = 4 if quick else 10
             n_mutate = 1 if quick else 3
             cands = [s for s in ss if s]
@@ -146,6 +153,11 @@ def _exc_name(r: Dict[str, Any]) -> str:
     return r["exc"]["type"]
 
 
+def _func(where: str) -> str:
+    parts = where.split(":")
+    return f"{parts[0]}:{parts[2]}".replace("<lambda>", "lambda") if len(parts) >= 3 else where
+
+
 def judge_input(obs: Dict[str, Any]) -> Tuple[List[Tuple[str, str]], List[str], bool]:
     """-> (violations [(signature-core, text)], inconclusive notes, nontrivial)"""
     vio: List[Tuple[str, str]] = []
@@ -154,6 +166,7 @@ def judge_input(obs: Dict[str, Any]) -> Tuple[List[Tuple[str, str]], List[str], 
     exp = expected_verdict(oracle)
     s = obs["s"]
     nontrivial = oracle["member"]
+    undecided = bool(oracle["note"]) and "OracleUndecided" in oracle["note"]
     # R1 ---------------------------------------------------------------
     c = obs["check_str"]
     if "watchdog" in c:
@@ -161,6 +174,9 @@ def judge_input(obs: Dict[str, Any]) -> Tuple[List[Tuple[str, str]], List[str], 
     elif "exc" in c:
         if _exc_name(c) == "UnknownResultError":
             inc.append(f"check({s!r}) raised UnknownResultError")
+        elif undecided:
+            inc.append(f"check({s!r}) raised {_exc_name(c)} at {c['exc']['where']} while the oracle's Z3 query is "
+                       f"undecided too ({oracle['note']})")
         else:
             vio.append((f"check(str):raises:{_exc_name(c)}",
                         f"check({s!r}) raised {_exc_name(c)}({c['exc']['msg'][:100]!r}) at {c['exc']['where']}; "
@@ -190,6 +206,8 @@ def judge_input(obs: Dict[str, Any]) -> Tuple[List[Tuple[str, str]], List[str], 
                             f"parse({s!r}) raised SemanticError; oracle verdicts {oracle['verdicts']}"))
         elif name == "UnknownResultError":
             inc.append(f"parse({s!r}) raised UnknownResultError")
+        elif undecided:
+            inc.append(f"parse({s!r}) raised {name} at {p['exc']['where']} while the oracle's Z3 query is undecided too")
         else:
             vio.append((f"parse:raises:{name}",
                         f"parse({s!r}) raised {name}({p['exc']['msg'][:100]!r}) at {p['exc']['where']}; expected "
@@ -215,8 +233,8 @@ def judge_input(obs: Dict[str, Any]) -> Tuple[List[Tuple[str, str]], List[str], 
             if "watchdog" in ct:
                 inc.append(f"check(tree of {s!r}) watchdog")
             elif "exc" in ct:
-                if _exc_name(ct) == "UnknownResultError":
-                    inc.append(f"check(tree of {s!r}) raised UnknownResultError")
+                if _exc_name(ct) == "UnknownResultError" or undecided:
+                    inc.append(f"check(tree of {s!r}) raised {_exc_name(ct)}")
                 else:
                     vio.append((f"check(tree):raises:{_exc_name(ct)}-but-check(str)-returns",
                                 f"check(tree[{style}-style epsilon] of {s!r}) raised {_exc_name(ct)} at "
@@ -252,7 +270,13 @@ def judge_repair(e: Dict[str, Any]) -> Tuple[List[Tuple[str, str]], List[str], s
     if "watchdog" in r:
         inc.append(f"repair({s!r}) watchdog")
     elif "exc" in r:
-        inc.append(f"repair({s!r}) raised {_exc_name(r)} at {r['exc']['where']} (outside the statement; counted)")
+        undecided = bool(e["oracle"]["note"]) and "OracleUndecided" in e["oracle"]["note"]
+        if _exc_name(r) == "UnknownResultError" or undecided:
+            inc.append(f"repair({s!r}) raised {_exc_name(r)} at {r['exc']['where']}")
+        else:
+            vio.append((f"repair:raises:{_exc_name(r)}:{_func(r['exc']['where'])}:input-{kind}",
+                        f"repair({how} {s!r}, fix_timeout_seconds={e['fix_timeout']}) raised {_exc_name(r)}"
+                        f"({r['exc']['msg'][:100]!r}) at {r['exc']['where']}; expected Some(valid tree) or Nothing"))
     elif "nothing" in r:
         if exp is True and e["oracle"]["parses"] == 1:
             vio.append(("repair:Nothing-for-valid-input", f"repair({how} {s!r}) returned Nothing; the input satisfies the constraint"))
@@ -283,7 +307,14 @@ def judge_mutation(e: Dict[str, Any]) -> Tuple[List[Tuple[str, str]], List[str]]
     if "watchdog" in r:
         inc.append(f"mutate({s!r}) watchdog")
     elif "exc" in r:
-        inc.append(f"mutate({s!r}) raised {_exc_name(r)} at {r['exc']['where']} (outside the statement; counted)")
+        undecided = bool(e["oracle"]["note"]) and "OracleUndecided" in e["oracle"]["note"]
+        if _exc_name(r) == "UnknownResultError" or undecided:
+            inc.append(f"mutate({s!r}) raised {_exc_name(r)} at {r['exc']['where']}")
+        else:
+            vio.append((f"mutate:raises:{_exc_name(r)}:{_func(r['exc']['where'])}",
+                        f"mutate({s!r}, min_mutations={e['min_mutations']}, max_mutations={e['max_mutations']}, "
+                        f"fix_timeout_seconds={e['fix_timeout']}) raised {_exc_name(r)}({r['exc']['msg'][:100]!r}) at "
+                        f"{r['exc']['where']}; expected a tree satisfying the constraint"))
     else:
         t = r["tree"]
         for f in _result_tree_failures(t):
@@ -334,10 +365,18 @@ def run(rep, tier: str, seed: int) -> None:
     rep.assume("oracles bounded.reftree (membership, parse counting, reference trees) and bounded.refeval are trusted")
     rep.assume("ambiguous strings: check/parse are compared only when ALL reference parses (<= 16) agree on the "
                "constraint; R3/R4 are restricted to strings with exactly one parse")
-    rep.assume("UnknownResultError from check is documented and counted as inconclusive; exceptions escaping "
-               "repair()/mutate() are outside the property statement and are counted (section repair_mutate), not "
-               "reported as violations")
+    rep.assume("UnknownResultError from check is documented and counted as inconclusive; so is any exception of "
+               "check/parse/repair/mutate on an input for which the ORACLE's own ground Z3 query is `unknown`")
+    rep.assume("an exception escaping repair()/mutate() means that no result was returned at all; the statement's "
+               "clauses `returns ... unchanged / returns only valid inputs / every tree returned by mutate` presuppose "
+               "a result, so such an exception is reported as a violation (repair:raises:... / mutate:raises:...) with "
+               "the raising function in the signature, independent of the constraint class")
+    rep.assume("grammar `wide` has a start symbol with several alternatives; it is kept (signature class "
+               "grammar-start-with-several-alternatives) and complemented by `wide1`, the same language with a "
+               "single-alternative <start>, for the wide-node cases")
     rep.assume("repair() is only called on strings of the language (its documented pre-condition)")
+    rep.assume("besides bounded.grammars.GRAMMARS two local grammars are used (bounded.c18_worker): `wide1` and "
+               "`recstart` = {<start>: [<A>], <A>: ['(<start>)', 'x']}, a grammar with a recursive start symbol")
     rep.exhaustive = False
     hard = {"quick": 200.0, "thorough": 900.0}[tier]
     pool = cc.KillablePool(16, "bounded.c18_worker", "run_task", hard)
@@ -372,7 +411,8 @@ def run(rep, tier: str, seed: int) -> None:
 
         def report(core: str, text: str, payload: Dict[str, Any]):
             dump.append((task["tid"], core, text))
-            rep.violation(f"{core}:{cls}", f"grammar {task['grammar']} constraint {task['text']!r}: {text}",
+            sig = core if core.startswith(("repair:raises", "mutate:raises")) else f"{core}:{cls}"
+            rep.violation(sig, f"grammar {task['grammar']} constraint {task['text']!r}: {text}",
                           dict(module=MODULE, case=dict(task, strings=payload.get("strings", []),
                                                         repairs=payload.get("repairs", []),
                                                         mutations=payload.get("mutations", [])), core=core))
